@@ -971,7 +971,7 @@ def tier_c(run, thorough):
                  '(set partitions) of n_cond 2..5 conditions; n_rdm 1..4 x int / str group labels x list / array descriptors'
                  '%s; default index descriptor; prediction = RDMs / ModelFixed.predict_rdm; %s for ALL groupings of %s'
                  % ('' if thorough else ' for n_cond <= 4, for n_cond = 5 the combinations (1, int, list), (3, str, array)',
-                    SWEEP_NOTE, 'n_cond 3..5, n_rdm 2 (n_cond 4 also n_rdm 3)' if thorough
+                    SWEEP_NOTE, 'n_cond 3..4, n_rdm 2 (n_cond 4 also n_rdm 3; six of the sweeps: also n_cond 5)' if thorough
                     else 'n_cond 3, n_rdm 2 (six of the sweeps: also n_cond 4)'),
                  exhaustive=True, function='bootstrap_sample_pattern')
     for n_cond in range(2, 6):
@@ -990,7 +990,7 @@ def tier_c(run, thorough):
                          function='bootstrap_sample_pattern')
     for n_rdm, n_cond in ([(2, 3), (2, 4), (3, 4), (2, 5)] if thorough else [(2, 3), (2, 4)]):
         for k, (name, kind, cont, extra) in enumerate(variants):
-            if not thorough and n_cond == 4 and not _key((name, kind, cont, extra)):
+            if n_cond == (5 if thorough else 4) and not _key((name, kind, cont, extra)):
                 continue
             for rgs in _partitions(n_cond):
                 case = _sweep_case(dict(n_rdm=n_rdm, n_cond=n_cond, rg=None, pg=_label(rgs, kind), container=cont,
